@@ -3,6 +3,7 @@ package props
 import (
 	"fmt"
 	"github.com/vedadiyan/genql"
+	"strings"
 
 	"verifharness/internal/fw"
 	"verifharness/internal/gen"
@@ -27,7 +28,7 @@ func init() {
 			"LIKE patterns contain no backslash; non-ASCII characters in data are caseless, so ASCII folding is the case-insensitivity asserted",
 			"numeric literals are rendered without exponent; the reference model (internal/ref) is trusted",
 		},
-		Floor:         featList("op.eq", "op.ne", "op.lt", "op.le", "op.gt", "op.ge", "and", "or", "not", "in", "notin", "in.subquery", "between", "notbetween", "like", "notlike", "isnull", "isnotnull", "istrue", "isfalse", "law.partition", "law.notin", "law.between", "native-int", "in.subquery.correlated", "naming.alias", "naming.alias-unqualified", "naming.table-qualified", "const.spelled", "opt.idiomatic-arrays", "source.dual", "table.long", "reexec.vars", "reexec.document", "column.nonword"),
+		Floor:         featList("op.eq", "op.ne", "op.lt", "op.le", "op.gt", "op.ge", "and", "or", "not", "in", "notin", "in.subquery", "between", "notbetween", "like", "notlike", "isnull", "isnotnull", "istrue", "isfalse", "law.partition", "law.notin", "law.between", "native-int", "in.subquery.correlated", "naming.alias", "naming.alias-unqualified", "naming.table-qualified", "const.spelled", "opt.idiomatic-arrays", "source.dual", "table.long", "reexec.vars", "reexec.document", "column.nonword", "in.subquery.topn", "const.int64-edge"),
 		MinNontrivial: 50,
 		Phases: []fw.Phase{
 			{Name: "pred", N: func(t fw.Tier) int { return pick(t, 16000, 600000) }, Run: c01Pred},
@@ -162,7 +163,7 @@ func c01Twin(c *fw.Case, t *gen.Table, g *gen.PredGen, rest gen.Pred) (gen.Pred,
 
 func c01Pred(c *fw.Case) {
 	t, other := c01Tables(c)
-	g := &gen.PredGen{R: c.R, T: t, Other: other, MaxDepth: pick(c.Tier, 4, 7), Correlate: true}
+	g := &gen.PredGen{R: c.R, T: t, Other: other, MaxDepth: pick(c.Tier, 4, 7), Correlate: true, TopN: true, HugeConsts: c.Idx%7 == 3 || c.Chance(0.15)}
 	if c.Idx < 3*len(c01Forced) {
 		g.Force = c01Forced[c.Idx%len(c01Forced)]
 	}
@@ -189,6 +190,10 @@ func c01Pred(c *fw.Case) {
 	var numText map[float64]string
 	if c.Idx%50 == 17 || (g.Force == "" && c.Chance(0.03)) {
 		p, numText = c01Twin(c, t, g, p)
+	}
+	if numText == nil && g.HugeConsts && c.Chance(0.5) {
+		// the largest int64, which is 2^63 once it is read as a double
+		numText = map[float64]string{9223372036854775808: "9223372036854775807"}
 	}
 	alias, qualifier := "", ""
 	switch naming {
@@ -227,6 +232,9 @@ func c01Pred(c *fw.Case) {
 		// one numeric column arrives as natively typed Go integers
 		nativize(c, doc["t1"].([]any), gen.Pick(c.R, []string{"n1", "n2"}))
 		feats = append(feats, "native-int")
+		if strings.Contains(sql, "92233720368547") || strings.Contains(sql, "18446744073709551616") || strings.Contains(sql, "10000000000000000000") {
+			feats = append(feats, "const.int64-edge")
+		}
 	}
 	var opts []genql.QueryOption
 	if c.Idx%50 == 29 || c.Chance(0.05) {
@@ -369,7 +377,6 @@ func c01Laws(c *fw.Case) {
 	}
 }
 
-
 // c01Dual: dual is a source of exactly one row (the document itself): WHERE
 // keeps it or drops it like any other row.
 func c01Dual(c *fw.Case, t *gen.Table, g *gen.PredGen) {
@@ -406,7 +413,6 @@ func c01Dual(c *fw.Case, t *gen.Table, g *gen.PredGen) {
 	}
 	c.Nontrivial(sql + "|" + val.Canon(doc))
 }
-
 
 // c01Reexec: one Query object kept and executed several times while a variable
 // its predicate reads, or the document itself, changes in between: every
